@@ -410,23 +410,26 @@ private:
         // Place value in handoff slot
         m_handoff_ptr = ptr;
         m_handoff_ready = true;
+        // the slot is reused by the next sender as soon as this value is taken, so
+        // "still mine" is judged by the placement number, not by the ready flag alone
+        auto my_seq = ++m_handoff_seq;
+        auto mine_pending = [&] { return m_handoff_ready && m_handoff_seq == my_seq; };
         m_unbuf_recv_cv.notify_one();
 
         // Wait for receiver to take it
-        while (m_handoff_ready && !m_closed) {
+        while (mine_pending() && !m_closed) {
             if (timeout.expired()) {
-                if (m_handoff_ready) {
-                    delete m_handoff_ptr;
-                    m_handoff_ptr = nullptr;
-                    m_handoff_ready = false;
-                }
+                delete m_handoff_ptr;
+                m_handoff_ptr = nullptr;
+                m_handoff_ready = false;
+                m_unbuf_send_cv.notify_all();   // senders waiting for the slot
                 errno = ETIMEDOUT;
                 return false;
             }
             m_unbuf_send_cv.wait(m_unbuf_mutex, timeout);
         }
 
-        return !m_closed || !m_handoff_ready;
+        return !mine_pending();
     }
 
     bool unbuffered_recv(T& value, Timeout timeout) {
@@ -472,6 +475,7 @@ private:
         if (m_receivers_waiting > 0 && !m_handoff_ready) {
             m_handoff_ptr = ptr;
             m_handoff_ready = true;
+            ++m_handoff_seq;
             m_unbuf_recv_cv.notify_one();
             return true;
         }
@@ -535,6 +539,7 @@ private:
 
     // For unbuffered channels: mutex-based handoff
     T* m_handoff_ptr;
+    uint64_t m_handoff_seq = 0;     // number of values placed into the hand-off slot so far
     bool m_handoff_ready;
     mutex m_unbuf_mutex;
     condition_variable m_unbuf_send_cv;
